@@ -301,7 +301,9 @@ def run_concrete(harness, params, model, tol=TOL):
     """Run the harness on the plain package with concrete values. Returns dict."""
     env = ConcEnv(model, tol=tol)
     res = {"status": "ok", "failed": [], "obligations": 0}
+    cwd = os.getcwd()
     try:
+        os.chdir(os.path.dirname(env.path("x")))     # code under test may write side files (e.g. band.em) into the cwd
         with warnings.catch_warnings():
             warnings.simplefilter("ignore")
             with contextlib.redirect_stdout(io.StringIO()):
@@ -320,6 +322,7 @@ def run_concrete(harness, params, model, tol=TOL):
         res["where"] = ["%s:%d" % (os.path.basename(f.filename), f.lineno) for f in tb][-4:]
         return res
     finally:
+        os.chdir(cwd)
         env.cleanup()
     res["obligations"] = len(env.obligations)
     res["failed"] = [n for n, ok in env.obligations if not ok]
